@@ -1,6 +1,7 @@
 package crash
 
 import (
+	"encoding/hex"
 	"fmt"
 	"os"
 	"path/filepath"
@@ -106,10 +107,17 @@ func firstCrashPoints(d *Decoded, max int) []int {
 }
 
 // ExploreDouble: see DoubleCrash.
-func ExploreDouble(h *History, d *Decoded, ops []Op, root, dir, tier string) []DoubleCrash {
+func ExploreDouble(h *History, d *Decoded, ops []Op, root, dir, tier, kind string) []DoubleCrash {
 	maxK1, maxJ := 3, 80
 	if tier == "thorough" {
 		maxK1, maxJ = 5, 150
+	}
+	if kind == "C02" {
+		// C02 explores every prefix of the run as well; of the recovery only the one of the final image
+		maxK1, maxJ = 1, 60
+		if tier == "thorough" {
+			maxK1, maxJ = 2, 120
+		}
 	}
 	var res []DoubleCrash
 	for _, k1 := range firstCrashPoints(d, maxK1) {
@@ -224,6 +232,9 @@ func (h *History) DoubleTerm(d *Decoded, dbl []DoubleCrash) (string, []FailRow, 
 			fl = append(fl, h.OracleC01(d3, o)...)
 			fl = append(fl, h.OracleC02(d3, o)...)
 			if o.Class == 0 {
+				if msg := h.reappliedTwice(d, dc.K1, o); msg != "" {
+					fl = append(fl, Verdict{false, "", msg})
+				}
 				for _, f := range dc.Outs[i].Files {
 					// a file in state replayed-not-deleted is renamed *.tmp by the next start-up ("No Replay Needed" is a
 					// ReplayError{Cont}); it is never looked at again.  Any other leftover *.walfile is a failure.
@@ -242,6 +253,115 @@ func (h *History) DoubleTerm(d *Decoded, dbl []DoubleCrash) (string, []FailRow, 
 			cq.F("d_rtrace", EvsTerm(evs2)), cq.F("d_obs", cq.List(obs))))
 	}
 	return cq.List(terms), fails, clen, errs
+}
+
+// reappliedTwice: the protocol writes a checkpoint record after EVERY replayed transaction group, so a crash
+// during replay can make the next start-up re-apply at most ONE group a second time (the one in flight).  For
+// every variable-length TG that was committed and not checkpointed at the first crash: copies = multiplicity of
+// its records after the second recovery; it was applied once by the run (if its primary writes were complete at
+// the first crash) and once by a replay; a third copy means it was replayed twice.  More than one such TG is a
+// failure of "replayed once" beyond the known re-append defect.
+func (h *History) reappliedTwice(d *Decoded, k1 int, o Obs) string {
+	got := h.recovered(d, o)
+	type tgInfo struct {
+		id      int64
+		applied int // complete applications by the run before k1
+		cmds    []Cmd
+	}
+	var tgs []tgInfo
+	n := k1
+	if n > len(d.Evs) {
+		n = len(d.Evs)
+	}
+	for i := 0; i < n; i++ {
+		e := d.Evs[i]
+		if e.K == "walapp" && e.Rec.T == "txn" && e.Rec.Dest == 1 && e.Rec.St == 2 {
+			tgs = nil // a completed checkpoint covers everything before it
+		}
+		if e.K == "waltrunc" {
+			tgs = nil
+		}
+		if e.K == "walapp" && e.Rec.T == "body" {
+			t := tgInfo{id: e.Rec.Tid}
+			for _, c := range e.Rec.Cmds {
+				if c.Var {
+					t.cmds = append(t.cmds, c)
+				}
+			}
+			// its primary phase: the vindex events up to the next non-primary event after the fsync
+			done := 0
+			j := i + 1
+			for j < n && d.Evs[j].K != "walfsync" {
+				j++
+			}
+			for j++; j < n && (d.Evs[j].K == "pw" || d.Evs[j].K == "vdata" || d.Evs[j].K == "vindex"); j++ {
+				if d.Evs[j].K == "vindex" {
+					done++
+				}
+			}
+			if len(t.cmds) > 0 && done == len(t.cmds) {
+				t.applied = 1
+			}
+			if len(t.cmds) > 0 && (i+1 < n && d.Evs[i+1].K == "walapp" && d.Evs[i+1].Rec.T == "sum") {
+				tgs = append(tgs, t)
+			}
+		}
+	}
+	twice := 0
+	var ids []int64
+	for _, t := range tgs {
+		extraMin := 1 << 30
+		for _, c := range t.cmds {
+			if c.F >= len(d.Files) {
+				continue
+			}
+			fi := d.Files[c.F]
+			bi := -1
+			for x := range h.Buckets {
+				if h.Buckets[x].Key == fi.Bucket {
+					bi = x
+				}
+			}
+			if bi < 0 || o.B[bi].Code != 1 {
+				continue
+			}
+			key := slotKey{bi, fi.Year, c.Index}
+			// how often does this command write each of its records (a request may repeat a value)?
+			for _, r := range c.Data {
+				if len(r) < 4 {
+					continue
+				}
+				v := hex.EncodeToString(r[:len(r)-4])
+				same := 0
+				for _, t2 := range tgs {
+					for _, c2 := range t2.cmds {
+						if c2.F == c.F && c2.Index == c.Index {
+							for _, r2 := range c2.Data {
+								if len(r2) >= 4 && hex.EncodeToString(r2[:len(r2)-4]) == v {
+									same++
+								}
+							}
+						}
+					}
+				}
+				if same != 1 {
+					continue // not a distinguishing record
+				}
+				extra := count(got[key], v) - t.applied
+				if extra < extraMin {
+					extraMin = extra
+				}
+			}
+		}
+		if extraMin != 1<<30 && extraMin >= 2 {
+			twice++
+			ids = append(ids, t.id)
+		}
+	}
+	if twice > 1 {
+		return fmt.Sprintf("after a crash during replay %d transaction groups were re-applied a second time (TG ids %v); the per-group checkpoint allows at most one", twice, ids)
+	}
+	return ""
 }
 
 var _ = reflect.DeepEqual
